@@ -42,6 +42,11 @@ def scenario(sh: Shard, seed, idx):
             # both forms a caller may hold: the string, or the bytes a descriptor carries
             kw["spa_to_find"] = target["ident"].decode("latin1") if r.random() < 0.5 else target["ident"]
             sh.see("threaded_spa_to_find_forms", type(kw["spa_to_find"]).__name__)
+        # "no static address" in the forms callers use: absent, None, or the empty string the shell passes
+        sip = r.choice(["absent", None, "", ""])
+        if sip != "absent":
+            kw["static_ip"] = sip
+            sh.see("threaded_static_ip_forms", repr(sip))
         loc = GeckoLocator("02ac6d28-42d0-41e3-ad22-274d0aa491da", **kw)
         done = {}
 
